@@ -91,6 +91,11 @@ def wall_clock_steps(c, prop="C05"):
                       "body": {"seed": 3, "len": 9 if method in ("PUT", "POST", "PATCH") else 0}, "framing": "cl" if method in ("PUT", "POST", "PATCH") else "none",
                       "resp": {"status": 200, "headers": [["Date", email.utils.formatdate(_time.time() + skew, usegmt=True)], ["X-Host", rid]],
                                "body": {"seed": 1, "len": 0 if method == "HEAD" else 4}, "framing": "cl"}})
+    # steady traffic: requests a quarter of a second apart for six seconds on one connection -- every one carries the time
+    # at which it went through the proxy (a value formatted once and reused goes stale)
+    for si in range(24):
+        steps += [{"op": "request", "conn": "old", "id": "ws%d" % si, "method": "GET", "target": "/machine?comp=steady&n=%d" % si,
+                   "headers": [["Host", "h"]]}, {"op": "sleep", "ms": 250}]
     offsets = [0, 7200, -86400 * 3, 35, 0]
     for k, off in enumerate(offsets):
         if k:
@@ -108,6 +113,7 @@ def wall_clock_steps(c, prop="C05"):
             raise util.ToolError("the wall-clock shim is not in effect (LD_PRELOAD): step %s moved the clock by %.1f s" % (e["secs"], moved))
         prev = e["secs"]
     t0 = None
+    sent_at = {e["id"]: e["t"] for e in ev if e["e"] == "Request" and e.get("id") and e.get("t")}
     rows, nrecv = [], 0
     for e in ev:
         if e["e"] == "ClockStep":
@@ -126,16 +132,16 @@ def wall_clock_steps(c, prop="C05"):
             nrecv += 1
             claims = [v for n, v in hs if n.lower() == "x-ms-azure-host-claims"]
             rows.append({"e": "recv", "id": e.get("id") or ("own:" + str(e.get("target"))), "wall": e["t"] // 1000 - t0, "dates": len(dates),
-                         "claims": len(claims),
+                         "claims": len(claims), "sent": (sent_at[e["id"]] // 1000 - t0) if e.get("id") in sent_at else -1,
                          "stamp": stamp, "parsed": parsed, "clientCopy": "Thu, 01 Jan 2015 00:00:00 GMT" in dates,
                          "own": not e.get("id")})
-    if nrecv < 2 * len(offsets) + 8:
+    if nrecv < 2 * len(offsets) + 8 + 20:
         raise util.ToolError("wall-clock scenario: the host received only %d requests" % nrecv)
     c.extra["wall_clock_steps"] = {"offsets": offsets, "requests_at_host": nrecv, "own_calls_at_host": sum(1 for r in rows if r.get("own"))}
     ok, why, res = validate_trace(c, "StampTrace", "StampTrace.cfg", rows, "stamp_%s" % prop, count=1, timeout=300)
     if not ok:
         bad = next((r for r in rows if r["e"] == "recv" and (r["dates"] != 1 or r["clientCopy"] or not r["parsed"] or (not r["own"] and r["claims"] != 1)
-                                                             or not (r["wall"] - 20 <= r["stamp"] <= r["wall"] + 1))), None)
+                                                             or not ((r["sent"] - 1 if r["sent"] >= 0 else r["wall"] - 20) <= r["stamp"] <= r["wall"] + 1))), None)
         c.violation("after the machine's wall clock was stepped the host receives a date that is not the proxy's current time: %s" % bad,
                     {"kind": "date-not-current-after-clock-step", "broken": why.replace("invariant ", "")}, {"rows": rows})
 
